@@ -7,7 +7,9 @@ LEVEL = "exploration"
 RULE = ("Hypothesis scenarios as for C02 plus L1/L2 regularisers (with and without bounds), zero-residual and "
         "start-at-minimiser problems, scaling, noisy objectives with hard restarts. The recorder keeps (x, r) of every "
         "call and the log gives each call's point number; soln.x / resid / obj are compared with the recorded data of "
-        "evaluation point soln.xmin_eval_num. Non-trivial = exit route other than the two plain successes, or >= 1 "
+        "evaluation point soln.xmin_eval_num. Every-iteration form: once per main-loop iteration (wrapper around the model's "
+        "fitting method, read-only) every stored interpolation point is compared with the recorded data of the point number "
+        "it carries (x, sample count, mean residual). Non-trivial = exit route other than the two plain successes, or >= 1 "
         "restart, or averaging, or scaling, or a regulariser. Distinct = SHA-1 of the case JSON.")
 ASSUMPTIONS = ["x tolerance (8+2S)*eps*max(1,|x|,|bounds|) with S = number of base shifts (x(1+max(xu-xl)) when scaled)",
                "resid tolerance 8*eps*k*max|r| for k samples; obj tolerance 16*eps*(sum r^2 + |h|)",
@@ -18,7 +20,9 @@ PROF = sc.make_prof(reg=0.15, zero_resid=0.15, diag=0.2)
 
 def run(case):
     res = CaseResult()
-    o = sc.run_solve(case)
+    o = sc.run_solve(case, iter_hook=cl.iteration_hook(case, check_c03=True, check_c04=False))
+    for clause, detail in o.iter_fail:
+        res.fail(clause, detail)
     cl.c03(case, o, res)
     r = cl.route(o)
     res.classes.append("route:" + r)
